@@ -15,7 +15,8 @@ from .c12 import mutate_tree
 
 LEVEL = "exploration"
 SHARDS = {"quick": 1, "thorough": 16}
-REQUIRED = ("descriptor_hook_comparisons", "descriptor_hook_pack_comparisons", "descriptor_hook_comparisons_ok_onlyafter",
+REQUIRED = ("special_layout_comparisons", "special_layout_embed_in_variable_run_ok", "special_layout_size_from_optional_failing",
+            "descriptor_hook_comparisons", "descriptor_hook_pack_comparisons", "descriptor_hook_comparisons_ok_onlyafter",
             "descriptor_hook_comparisons_ok_onlybefore", "descriptor_hook_comparisons_ok_both", "descriptor_hook_comparisons_ok_neither",
             "modify_after_unpack_compared", "unpack_compared", "pack_compared", "both_fail_compared", "struct_runs_generated", "illtyped_pack_compared",
             "variants_compared")
@@ -250,6 +251,24 @@ HOOK_LAYOUTS = [
 ]
 
 
+SPECIAL_LAYOUTS = [
+    # embedded packets (their fields are borrowed by the outer class; the Ref itself packs/unpacks nothing)
+    ("embed_first", "class B%(V)s(Packet):\n    __bisturi__ = %(O)r\n    x = Int(1)\n    y = Int(2)\n\nclass R%(V)s(Packet):\n    __bisturi__ = %(O)r\n    e = Ref(B%(V)s, embed=True)\n    z = Int(1)\n",
+     "R", ["x", "y", "z"]),
+    ("embed_in_variable_run", "class B%(V)s(Packet):\n    __bisturi__ = %(O)r\n    hi = Bits(4)\n    lo = Bits(4)\n    w = Int(2)\n\nclass R%(V)s(Packet):\n    __bisturi__ = %(O)r\n    n = Int(1)\n    l = Int(1).repeated(n)\n    e = Ref(B%(V)s, embed=True)\n    t = Int(1)\n",
+     "R", ["n", "l", "hi", "lo", "w", "t"]),
+    ("embed_between_delimited", "class B%(V)s(Packet):\n    __bisturi__ = %(O)r\n    k = Data(until_marker=b';')\n    m = Int(1)\n\nclass R%(V)s(Packet):\n    __bisturi__ = %(O)r\n    a = Data(until_marker=b':')\n    e = Ref(B%(V)s, embed=True)\n    d = Data(until_marker=b';')\n",
+     "R", ["a", "k", "m", "d"]),
+    # a size / count taken from an optional field that may be absent (None): whatever the failure is, every option set fails alike
+    ("size_from_optional", "class R%(V)s(Packet):\n    __bisturi__ = %(O)r\n    flags = Int(1)\n    n = Int(1).when(flags & 1)\n    d = Data(n)\n    t = Int(1)\n",
+     "R", ["flags", "n", "d", "t"]),
+    ("count_from_optional", "class R%(V)s(Packet):\n    __bisturi__ = %(O)r\n    flags = Int(1)\n    n = Int(1).when(flags & 1)\n    l = Int(2).repeated(n)\n    t = Int(1)\n",
+     "R", ["flags", "n", "l", "t"]),
+    ("nested_size_from_optional", "class S%(V)s(Packet):\n    __bisturi__ = %(O)r\n    flags = Int(1)\n    n = Int(1).when(flags & 1)\n    d = Data(n)\n\nclass R%(V)s(Packet):\n    __bisturi__ = %(O)r\n    h = Int(1)\n    s = Ref(S%(V)s)\n    t = Int(1)\n",
+     "R", ["h", "s.flags", "s.n", "s.d", "t"]),
+]
+
+
 def _read_path(pkt, path):
     v = pkt
     for part in path.split("."):
@@ -265,8 +284,9 @@ def descriptor_hooks_part(run, rng):
     descs = ["Neither()", "OnlyAfter()", "OnlyBefore()", "Both()"]
     d = common.scratch_dir("bvf_c03h_")
     try:
-        for lname, body, rootname, paths in HOOK_LAYOUTS:
-            for di, D in enumerate(descs):
+        for lname, body, rootname, paths in HOOK_LAYOUTS + SPECIAL_LAYOUTS:
+            special = (lname, body, rootname, paths) in SPECIAL_LAYOUTS
+            for di, D in enumerate(descs if not special else ["(no descriptor)"]):
                 D2 = descs[(di + 1 + rng.randrange(3)) % 4] if lname == "two" else D
                 src = HOOK_HEADER + "\n".join(body % {"D": D, "D2": D2, "V": "_" + v, "O": variants[v]} for v in variants)
                 try:
@@ -277,7 +297,8 @@ def descriptor_hooks_part(run, rng):
                     continue
                 ref_cls = getattr(module, rootname + "_g")
                 inputs = [bytes(rng.randrange(256) for _ in range(rng.choice([0, 2, 3, 5, 8, 12, 20]))) for _ in range(10)]
-                inputs += [bytes([3, 0xF5, 0x41, 0x42, 0x43, 0xF7, 0x3B, 0xF2, 0xF3, 0xF4, 0xF5, 0xF6]), b"\x02\xf1;\xf2\xf3;" + bytes(range(0xE0, 0xF0))]
+                inputs += [bytes([3, 0xF5, 0x41, 0x42, 0x43, 0xF7, 0x3B, 0xF2, 0xF3, 0xF4, 0xF5, 0xF6]), b"\x02\xf1;\xf2\xf3;" + bytes(range(0xE0, 0xF0)),
+                           b"ab:cd;\x07ef;gh", b"\x02\x01\x02\xa5\x01\x02\x09", b"\x00\x05abcde", b"\x01\x02ab\x09\x08", b"\x07\x01\x02ab\x09", b"\x07\x00\x02ab\x09"]
                 for raw in inputs:
                     def observe(cls):
                         r = harness.lib_unpack(cls, raw)
@@ -296,12 +317,14 @@ def descriptor_hooks_part(run, rng):
                             continue
                         got, _ = observe(getattr(module, rootname + "_" + v))
                         run.case(key=("hooks", lname, D, v, want[0]), nontrivial=True)
-                        run.count("descriptor_hook_comparisons")
-                        if want[0] == "ok":
+                        run.count("descriptor_hook_comparisons" if not special else "special_layout_comparisons")
+                        if special:
+                            run.count("special_layout_%s_%s" % (lname, "ok" if want[0] == "ok" else "failing"))
+                        elif want[0] == "ok":
                             run.count("descriptor_hook_comparisons_ok_" + D.rstrip("()").lower())
                         if got != want:
-                            run.violation("with a user descriptor (%s) the generated code (%s) and the field loop disagree on unpack values / end offset / "
-                                          "pack bytes / values after pack" % (D, variants[v]),
+                            run.violation("%s: the generated code (%s) and the field loop disagree on unpack values / end offset / "
+                                          "pack bytes / values after pack" % (("layout '%s'" % lname) if special else ("with a user descriptor (%s)" % D), variants[v]),
                                           {"source": src, "layout": lname, "descriptor": D, "variant": v, "options": variants[v], "input": b2j(raw),
                                            "field_loop": common.to_json(want), "generated": common.to_json(got)}, None)
                             break
@@ -346,7 +369,8 @@ def run(run):
     if shard == 0:
         descriptor_hooks_part(run, rng_for(run.seed, "c03hooks"))
     else:
-        for k in ("descriptor_hook_comparisons", "descriptor_hook_pack_comparisons", "descriptor_hook_comparisons_ok_onlyafter",
+        for k in ("special_layout_comparisons", "special_layout_embed_in_variable_run_ok", "special_layout_size_from_optional_failing",
+                  "descriptor_hook_comparisons", "descriptor_hook_pack_comparisons", "descriptor_hook_comparisons_ok_onlyafter",
                   "descriptor_hook_comparisons_ok_onlybefore", "descriptor_hook_comparisons_ok_both", "descriptor_hook_comparisons_ok_neither"):
             run.count(k)
     variants = QUICK_VARIANTS if run.tier == "quick" else all_variants()
